@@ -268,6 +268,10 @@ def specs(tier):
     # a configuration in which radio events trigger (channel isolation of the radio integral needs passing events)
     out.append(dict(mode="Diffuse", spectrum="mono", cloud="map", optical=True, radio=True, alt=33.0, n=150, logE=11.0, schedules=True, extra={"detector": {"radio": {"snr_threshold": 1.0}}}))
     out.append(dict(mode="Target", spectrum="mono", cloud="none", optical=True, radio=True, alt=33.0, n=150, logE=11.0, schedules=False, extra={"detector": {"radio": {"snr_threshold": 1.0}}}))
+    # exactly one / two surviving trajectories (sample statistics of a single event are undefined)
+    out.append(dict(mode="Diffuse", spectrum="mono", cloud="none", optical=True, radio=True, alt=525.0, n=1, schedules=False))
+    out.append(dict(mode="Diffuse", spectrum="power", cloud="mono", optical=True, radio=True, alt=525.0, n=2, schedules=False))
+    out.append(dict(mode="Diffuse", spectrum="mono", cloud="none", optical=False, radio=True, alt=525.0, n=1, schedules=False))
     # zero survivors
     out.append(dict(mode="Diffuse", spectrum="mono", cloud="none", optical=True, radio=True, alt=525.0, n=0, schedules=False))
     out.append(dict(mode="Diffuse", spectrum="power", cloud="map", optical=True, radio=False, alt=525.0, n=0, schedules=False))
